@@ -15,7 +15,7 @@ from fractions import Fraction
 
 from .. import tae_conf
 from ..common import guards, short, src_fn, where, find_nodes
-from ..exprs import bool_function, mentions, strip
+from ..exprs import bool_function, expand_combinators, simplify, mentions, strip
 from ..mirlib import op_const, op_place, Expr, Program, expr_str
 from ..tae import DIRS, DIR_OFF, TableError, Tables
 
@@ -203,7 +203,10 @@ def merge_rules(run, R):
         run.missing(R, "Line::merge")
     else:
         b = prog.bodies[lm]
-        rets = [strip(r) for r in Expr(prog, lm).returns()]
+        rets = []
+        for r in Expr(prog, lm).returns():
+            r = strip(simplify(expand_combinators(prog, r)))   # `self.can_merge(other).then(|| Line::new(..))`
+            rets.extend(strip(a) for a in r[1]) if r[0] == "phi" else rets.append(r)
         some = [r for r in rets if r[0] == "agg" and r[2] == "Some"]
         none = [r for r in rets if r[0] == "agg" and r[2] == "None"]
         if len(some) == 1 and len(some) + len(none) == len(rets):
@@ -264,6 +267,8 @@ def merge_rules(run, R):
                 r_ = strip(r_)
                 if r_[0] == "agg" and r_[2] in ("Some", "None"):
                     return r_[2] == "Some"
+                if r_[0] == "call" and re.search(r"<impl bool>::then$|bool::then$", r_[1]) and len(r_[2]) == 2:
+                    return ("cond", r_[2][0])
                 return None
             atoms, table = bool_function(prog, lm, atom, keep=re.escape(cm) + "$", result=is_some, free=True)
             if atoms is None:
@@ -345,6 +350,8 @@ def merge_rules(run, R):
                 r_ = strip(r_)
                 if r_[0] == "call" and "from_residual" in r_[1]:
                     return False   # the early return of `?` on an Option
+                if r_[0] == "call" and re.search(r"^core::option::Option::<T>::map$", r_[1]) and len(r_[2]) == 2:
+                    return ("cond", ("discr", r_[2][0]))   # `x.map(f)` is Some exactly when x is
                 return (r_[2] == "Some") if r_[0] == "agg" and r_[2] in ("Some", "None") else None
             at, tb = bool_function(prog, fsm, atom2, keep=re.escape(fm) + "$|as_line$|is_line$", result=is_some2, free=True)
             if at is not None and "fragments_merge" in at and all(v == k[at.index("fragments_merge")] for k, v in tb.items()):
